@@ -20,7 +20,7 @@ LW64 == <<0, 0, 0, 0, 1>>
 L38 == <<0, 0, 64, 0, 0>>                       \* 2^38 bytes: end of the ietf keystream, and block 2^32 for c64
 L64m == <<65535, 65535, 65535, 65535, 0>>       \* 2^64 - 1
 DeltasQ == {0, 1, 63, 64, 65}
-DeltasT == {0, 1, 2, 63, 64, 65, 127, 128, 255, 256, 257, 320}
+DeltasT == {0, 1, 2, 63, 64, 65, 128, 255, 257}
 DeltasE == IF TIER = "c11" THEN {0, 1, 63, 64, 65, 257} ELSE {0, 1, 63, 64, 65, 128, 192, 255, 256, 257}     \* C11: concentrated at the limits
 IsC11 == TIER \in {"c11", "c11t"}
 Deltas == IF TIER = "quick" THEN DeltasQ ELSE IF IsC11 THEN DeltasE ELSE DeltasT
@@ -28,8 +28,8 @@ SeekSet == (IF IsC11 THEN {LI(0), LI(64)} ELSE {LI(d) : d \in Deltas}) \cup {WSu
            \cup {WSub(L64m, LI(d)) : d \in (IF TIER = "quick" THEN {0, 63, 64} ELSE {0, 1, 62, 63, 64, 255, 256})}
 ApplySet == IF TIER = "quick" THEN {0, 1, 63, 64, 65, 256, 257, 321}
             ELSE IF TIER = "c11" THEN {0, 1, 63, 64, 65, 193, 257, 321}
-            ELSE IF TIER = "c11t" THEN {0, 1, 2, 63, 64, 65, 66, 128, 129, 192, 193, 255, 256, 257, 258, 320, 321}
-            ELSE {0, 1, 2, 63, 64, 65, 127, 128, 129, 191, 192, 255, 256, 257, 319, 320, 321, 511, 512, 513, 1025}
+            ELSE IF TIER = "c11t" THEN {0, 1, 2, 63, 64, 65, 66, 128, 129, 193, 255, 256, 257, 321}
+            ELSE {0, 1, 2, 63, 64, 65, 127, 129, 192, 255, 256, 257, 321, 513, 1025}
 Nonces == {<<65535, 65535, 0, 0, 0>>, <<4660, 22136, 0, 0, 0>>}
 Init == /\ depth = 0
         /\ \E v \in {"ietf", "c64"} : \E nz \in Nonces : (v = "c64" => nz = <<4660, 22136, 0, 0, 0>>) /\ InitFor(v, IF v = "c64" THEN L0 ELSE nz)
